@@ -516,7 +516,7 @@ def dupe_cases(draw):
     steps = []
     for _ in range(draw(st.integers(2, 5))):
         kind = draw(st.sampled_from(['build_step', 'build_step', 'copy_file',
-                                     'executable']))
+                                     'executable', 'alias', 'command']))
         if kind == 'build_step':
             outs = draw(st.lists(st.sampled_from(DUP_NAMES), min_size=1,
                                  max_size=3, unique=True))
@@ -549,6 +549,13 @@ def prop_dupes(rec):
                                          else s['outs'][0], s['outs']))
                 elif s['kind'] == 'copy_file':
                     lines.append('copy_file({!r}, "input.dat")'.format(
+                        s['outs'][0]))
+                elif s['kind'] == 'alias':
+                    # (a named target without a file: the name still has to
+                    # be unique in the build file)
+                    lines.append('alias({!r}, [])'.format(s['outs'][0]))
+                elif s['kind'] == 'command':
+                    lines.append('command({!r}, cmd=["true"])'.format(
                         s['outs'][0]))
                 else:
                     lines.append('executable({!r}, ["main.c"], '
